@@ -290,7 +290,7 @@ class CheckRun:
                 self.log(f"kernel link failed ({f.name}):\n" + tail)
                 self.violations.append(Violation("proof-broken", f"{self.pid}/kernel-link",
                                                  f"coq/link/{self.pid}_link.v no longer checks against the definitions regenerated from "
-                                                 f"the lerax source ({', '.join(k.file + ':' + k.func for k in kernels.KERNELS[self.pid])})",
+                                                 f"the lerax source ({', '.join(str(k.file) + ':' + k.func for k in kernels.KERNELS[self.pid])})",
                                                  extra={"log": tail, "theorems": names}))
                 self.extra_cov["kernel_link"] = {"generated": True, "checked": False, "file": str(gen)}
                 return False
@@ -299,7 +299,7 @@ class CheckRun:
         self.discharged += len(names)
         self.extra_cov["kernel_link"] = {
             "generated": True, "checked": True, "file": f"coq/gen/{self.pid}/GenK_{self.pid}.v", "link": f"coq/link/{self.pid}_link.v",
-            "theorems": names, "sources": [f"{k.file}::{(k.cls + '.') if k.cls else ''}{k.func}" for k in kernels.KERNELS[self.pid]],
+            "theorems": names, "sources": [f"{k.file}::{k.cls}.{k.func}" for k in kernels.KERNELS[self.pid]],
             "sha256_16": hashlib.sha256(gen.read_bytes()).hexdigest()[:16]}
         self.log(f"kernel link ok: {len(names)} theorems re-checked against definitions regenerated from the source")
         return True
